@@ -334,7 +334,12 @@ pub mod details {
             // required when push in overflow case is called non-concurrently from a different
             // thread
             let write_position = self.write_position.load(Ordering::Acquire);
-            let read_position = self.read_position.load(Ordering::Relaxed);
+            ////////////////
+            // SYNC POINT C
+            ////////////////
+            // the slot that is written next was read by the consumer before it advanced the
+            // read position
+            let read_position = self.read_position.load(Ordering::Acquire);
             let is_full = write_position == read_position + self.capacity as u64;
 
             unsafe { self.at(write_position).write(value) };
@@ -376,7 +381,11 @@ pub mod details {
         ///  * It has to be ensured that the memory is initialized with
         ///    [`SafelyOverflowingIndexQueue::init()`].
         pub unsafe fn pop(&self) -> Option<u64> {
-            let mut read_position = self.read_position.load(Ordering::Relaxed);
+            ////////////////
+            // SYNC POINT R
+            ////////////////
+            // the read position may have been advanced by an overflowing push
+            let mut read_position = self.read_position.load(Ordering::Acquire);
             ////////////////
             // SYNC POINT W
             ////////////////
@@ -393,7 +402,10 @@ pub mod details {
                 match self.read_position.compare_exchange(
                     read_position,
                     read_position + 1,
-                    Ordering::Relaxed,
+                    ////////////////
+                    // SYNC POINT C
+                    ////////////////
+                    Ordering::Release,
                     ////////////////
                     // SYNC POINT R
                     ////////////////
